@@ -428,19 +428,52 @@ Definition relabels (dbg : bool) (o : op) : bool :=
   | _ => false
   end.
 
-(* Closed is absorbing with its cause, except for the three documented relabellings *)
+(* a reset the library has only scheduled (not yet written) is not a cause the peer can see *)
+Definition unsent (c : cause) : bool :=
+  match c with ScheduledLibraryReset _ => true | _ => false end.
+
+(* Closed is absorbing with its cause, except for the three documented relabellings; a reset that is
+   only scheduled additionally gives way to the peer's RST_STREAM (fix 036e89b of /repo) *)
 Lemma closed_cause_stable dbg c o :
+  unsent c = false ->
   relabels dbg o = false -> fst (step dbg (Closed c) o) = Closed c.
 Proof.
-  d_op o; destruct dbg; cbn [relabels negb]; try discriminate; intros _; destruct c; reflexivity.
+  intros U. d_op o; destruct dbg; cbn [relabels negb]; try discriminate; intros _; destruct c;
+    try discriminate U; reflexivity.
 Qed.
 
-Theorem closed_cause_forever dbg c os :
-  forallb (fun o => negb (relabels dbg o)) os = true -> run dbg (Closed c) os = Closed c.
+Definition relabels_unsent (dbg : bool) (o : op) : bool :=
+  relabels dbg o || match o with ORecvReset _ _ _ | OHandleError _ => true | _ => false end.
+
+Lemma scheduled_cause_stable dbg r o :
+  relabels_unsent dbg o = false ->
+  fst (step dbg (Closed (ScheduledLibraryReset r)) o) = Closed (ScheduledLibraryReset r).
+Proof.
+  unfold relabels_unsent. d_op o; destruct dbg; cbn [relabels negb orb]; try discriminate; intros _; reflexivity.
+Qed.
+
+Theorem scheduled_cause_forever dbg r os :
+  forallb (fun o => negb (relabels_unsent dbg o)) os = true ->
+  run dbg (Closed (ScheduledLibraryReset r)) os = Closed (ScheduledLibraryReset r).
 Proof.
   induction os as [|o os IH]; cbn [forallb run]; auto.
   intros F. apply andb_true_iff in F as [F1 F2].
-  rewrite closed_cause_stable by (destruct (relabels dbg o); auto; discriminate). auto.
+  rewrite scheduled_cause_stable by (destruct (relabels_unsent dbg o); auto; discriminate). auto.
+Qed.
+
+(* the peer's reset replaces a reset that was never written *)
+Lemma scheduled_reset_gives_way sid reason r :
+  fst (recv_reset sid reason false (Closed (ScheduledLibraryReset r)))
+    = Closed (CError (remote_reset sid reason)).
+Proof. reflexivity. Qed.
+
+Theorem closed_cause_forever dbg c os :
+  unsent c = false ->
+  forallb (fun o => negb (relabels dbg o)) os = true -> run dbg (Closed c) os = Closed c.
+Proof.
+  intros U. induction os as [|o os IH]; cbn [forallb run]; auto.
+  intros F. apply andb_true_iff in F as [F1 F2].
+  rewrite closed_cause_stable by (auto; destruct (relabels dbg o); auto; discriminate). auto.
 Qed.
 
 (* the only way into "send streaming" is a successful send_open(false) *)
@@ -530,7 +563,7 @@ Proof. d_state s; cbn; intros A; try discriminate; reflexivity. Qed.
 Theorem recv_reset_tolerated sid r q s :
   snd (recv_reset sid r q s) = RUnit /\
   is_closed (fst (recv_reset sid r q s)) = true /\
-  (is_closed s = true -> q = false -> fst (recv_reset sid r q s) = s) /\
+  (is_closed s = true -> q = false -> get_scheduled_reset s = None -> fst (recv_reset sid r q s) = s) /\
   (receiver_must (abs s) (how_of s) RST_STREAM = conn_error -> s = Idle).
 Proof.
   d_state s; destruct q; cbn; repeat split; auto; intros; discriminate.
@@ -671,14 +704,19 @@ Theorem error_persists dbg e os :
   ensure_recv_open s' = RProtoErr e /\
   (forall m, ensure_reason m s' = ensure_reason m (Closed (CError e))).
 Proof.
-  intros F s'. subst s'. rewrite closed_cause_forever by assumption. auto.
+  intros F s'. subst s'. rewrite closed_cause_forever by (auto; reflexivity). auto.
 Qed.
 
 (* a later connection error never replaces the first cause *)
 Lemma first_error_wins e c :
-  fst (handle_error e (Closed c)) = Closed c /\ fst (recv_eof (Closed c)) = Closed c /\
-  (forall sid r, fst (recv_reset sid r false (Closed c)) = Closed c).
-Proof. repeat split. Qed.
+  (unsent c = false -> fst (handle_error e (Closed c)) = Closed c) /\ fst (recv_eof (Closed c)) = Closed c /\
+  (unsent c = false -> forall sid r, fst (recv_reset sid r false (Closed c)) = Closed c).
+Proof. repeat split; intros U; destruct c; try discriminate U; reflexivity. Qed.
+
+(* ... and to a connection error (fix of /repo: no RST_STREAM for a stream the error already ended) *)
+Lemma scheduled_reset_gives_way_conn e r :
+  fst (handle_error e (Closed (ScheduledLibraryReset r))) = Closed (CError e).
+Proof. reflexivity. Qed.
 
 (* ---------------------------------------------------------------------------------------------
    7. C07: endings *)
@@ -735,7 +773,9 @@ Proof.
                          ensure_recv_open s1 = RBool false).
   { subst s1. d_op o; cbn in E; try discriminate; d_state s; cbn in R |- *; try discriminate; eauto. }
   destruct C1 as (c & C1 & C2 & C3).
-  assert (S2 : s2 = s1). { subst s2. rewrite C1. apply closed_cause_forever; auto. }
+  assert (S2 : s2 = s1).
+  { subst s2. rewrite C1. apply closed_cause_forever; auto.
+    rewrite C1 in C2. destruct c; cbn in C2 |- *; auto; discriminate. }
   rewrite S2. repeat split; auto.
   - rewrite C1; reflexivity.
   - intros C. subst s1. d_op o; cbn in E; try discriminate; d_state s; cbn in C |- *;
